@@ -22,7 +22,8 @@ EXPLANATION = (
     'OverflowError), and the calendar fields of witness dates; (C18.5) YEARFRAC basis dispatch: 2 -> days/360, 3 -> '
     'days/365, 0/1/4 -> library conventions, other -> error, dates swapped when out of order; (C18.6) DATEDIF Y / M '
     '/ D on date pairs one day before / on / after an anniversary across leap years.'
-    ' (C18.7) DAYS and the subtraction of dates (built by DATE, held in cells, given as serials, across serial 60 and leap years) equal the difference of the serials.')
+    ' (C18.7) DAYS and the subtraction of dates (built by DATE, held in cells, given as serials, across serial 60 and leap years) equal the difference of the serials.'
+    ' (C18.1) number_to_datetime / datetime_to_number interpreted on serials and datetimes; (C18.8) DATE carries across the epoch, calendar fields around the year ends of ordinary, leap and century years, sequences of date calls in one process, a 1904-system workbook loaded earlier in the process.')
 NOT_DECIDED = 'the calendar itself (datetime / dateutil / yearfrac), the three million serials'
 TRUSTED = ['datetime.timedelta(days, seconds) and datetime.weekday() (Monday = 0) semantics', 'workbook scenarios: pandas storage of range arrays as row-major rows, numpy on Python numbers (IEEE results, 64-bit integer wrap), dateutil.parser.parse rejecting texts that are no dates, openpyxl address arithmetic, inspect.signature built from the FunctionDef']
 
